@@ -262,6 +262,33 @@ def r062(chk, w):
                 if all("len(" in x for x in ge) and all(re.fullmatch(r"arg2|hv.*|.*arg2$", x) or "len(" not in x for x in le):
                     okc = True
                     chk.fn(cb.fn)
+    if not okc:
+        # second idiom: tags.iter().map(Vec::len).filter(|&n| n >= 2).sum()
+        b_, it_, outs_ = C.run_fn(w, fn)
+        for e, o in C.all_calls(outs_, lambda e_: (e_[2] or "").endswith("::sum")):
+            atom = forms.Normalizer(it_, o).value_atom(e[3][0])
+            m = re.search(r"Iterator::filter\(core::iter::traits::iterator::Iterator::map\(.*\('fn', 'alloc::vec::Vec::len'\)\), \('agg', 'closure:([^']+)', \(\)\)\)", atom)
+            cb = w.body(m.group(1)) if m else None
+            if cb is None:
+                continue
+            ci = absint.Interp(w, cb, models=effects.EXTRA_MODELS)
+            tests = set()
+            table_ = set()
+            for x in ci.run(0):
+                if x.kind != "return":
+                    continue
+                rv_ = ci.resolve(x, x.value_at((("L", 0),)))
+                iv = [c for s_, c in x.cons.items() if c[0] == "ival" and "arg2" in s_]
+                if rv_[0] == "b" and len(iv) == 1:
+                    table_.add((rv_[1], iv[0][1], iv[0][2]))
+                for s_, info in ci.op_info.items():
+                    if info[0] in ("Ge", "Gt", "Le", "Lt"):
+                        a_, b2 = info[1], info[2]
+                        k_ = b2 if b2[0] == "i" else a_ if a_[0] == "i" else None
+                        if k_ is not None:
+                            tests.add((info[0] if b2[0] == "i" else {"Ge": "Le", "Gt": "Lt", "Le": "Ge", "Lt": "Gt"}[info[0]], k_[1]))
+            if (tests and tests <= {("Ge", 2), ("Gt", 1)}) or table_ == {(True, 2, None), (False, None, 1)}:
+                okc = True
     chk.ob("R06.2", "train_tag:n_class", okc, "train_tag does not size the score vector as sum over categories of (len if len >= 2 else 0)", site=C.site(b))
     # the training loop: categories with <= 1 tag are skipped and do not advance class_offset
     it = absint.Interp(w, b, models=effects.EXTRA_MODELS, summaries=C.summaries(w))
